@@ -22,9 +22,16 @@ def run(modname, relfile, old, new, flt=None, quiet=False):
         shutil.copytree("/repo/persim", os.path.join(tmp, "persim"))
         p = os.path.join(tmp, relfile)
         s = open(p).read()
-        if old not in s:
+        occ = 1
+        if "@@" in old:
+            old, k = old.rsplit("@@", 1)
+            occ = int(k)
+        if s.count(old) < occ:
             raise SystemExit("pattern not found in %s: %r" % (relfile, old))
-        open(p, "w").write(s.replace(old, new, 1))
+        pos = -1
+        for _ in range(occ):
+            pos = s.index(old, pos + 1)
+        open(p, "w").write(s[:pos] + new + s[pos + len(old):])
         os.environ["VERIF_REPO"] = tmp
         import pyvc.engine as E
         E.REPO = tmp
